@@ -1,5 +1,5 @@
 """C08 — the shared-memory store never hands out more than its capacity (structural clauses)."""
-from .shm import (r_add, r_get_pagein, r_pageout_callback, r_pagein_callback, r_space_writers, r_residency_pairing, r_purge, r_server_dispatch, r_manager_init, r_size_nonnegative, r_purge_races_pageout)
+from .shm import (r_add, r_get_pagein, r_pageout_callback, r_pagein_callback, r_space_writers, r_residency_pairing, r_purge, r_server_dispatch, r_manager_init, r_size_nonnegative, r_purge_races_pageout, r_close_callback, r_pageout_failed_with_reader)
 
 META = {
     "explanation": "Static structural analysis of cascade.shm.dataset.Manager by abstract interpretation over small model stores: admission "
@@ -11,7 +11,7 @@ META = {
                    "Later rules: a purge racing a finished page-out credits the size once (history with the completion callback), a page-out whose unlink fails reports failure, the store starts with free space = capacity <= available. Not decided: the instantaneous invariant under every interleaving of the disk threads with requests.",
     "assumptions": ["SharedMemory and the disk pool are opaque; one dataset per model store"],
 }
-RULES = [r_add, r_get_pagein, r_pageout_callback, r_pagein_callback, r_purge, r_space_writers, r_residency_pairing, r_server_dispatch, r_manager_init, r_size_nonnegative, r_purge_races_pageout]
+RULES = [r_add, r_get_pagein, r_pageout_callback, r_pagein_callback, r_purge, r_space_writers, r_residency_pairing, r_server_dispatch, r_manager_init, r_size_nonnegative, r_purge_races_pageout, r_close_callback, r_pageout_failed_with_reader]
 
 from .common import lazy  # noqa: E402
 RULES.append(lazy("shm", "r_disk", "space is credited only after the segment is really gone: write, unlink, then report"))
